@@ -14,7 +14,7 @@ RULE = ("n = 1..4 files, each assigned (role, outside change) from {modified, re
         "before its first buffered access, after it (before or after the buffered modification), never}; "
         "exhaustive over all assignments for n <= 2 (quick) / n <= 3 (thorough), sampled above; first-touch "
         "order permuted; flush trigger in {per-object context exits, backend-wide exit, backend-wide exit of a "
-        "context that set a capacity, set_buffer_capacity(0) inside the context, a capacity-forced flush during "
+        "context that set a capacity (also with a small capacity in effect before it), set_buffer_capacity(0) inside the context, a capacity-forced flush during "
         "an operation on an unrelated file}; both strategies; dict and list. The outside writer always changes "
         "size and mtime. Expected outcomes come straight from the statement: a conflicting file (modified in the "
         "buffer and changed outside after it entered) makes the flush that would write it raise - MetadataError "
@@ -32,7 +32,8 @@ SHARD_TIMEOUT = {"quick": 600, "thorough": 3600}
 CLASSES = ["BufferedJSONDict", "BufferedJSONList", "MemoryBufferedJSONDict", "MemoryBufferedJSONList"]
 ROLES = ["modified", "readonly", "untouched"]
 WHEN = ["before", "after_read", "after_mod", "never"]
-TRIGGERS = ["obj_exit", "backend_exit", "backend_exit_cap", "set_capacity_0", "forced_by_other_op"]
+TRIGGERS = ["obj_exit", "backend_exit", "backend_exit_cap", "backend_exit_cap_small_prev", "set_capacity_0",
+            "forced_by_other_op"]
 
 
 def assignments(n):
@@ -123,6 +124,9 @@ def run_case(info, trigger, case):
 
     try:
         catalog.reset_class_state(cls)
+        if trigger == "backend_exit_cap_small_prev":
+            # the capacity in effect before the context is small; the context itself gets a large one
+            cls.set_buffer_capacity(1 if info.strategy == "memory" else 24)
         cap_before = cls.get_buffer_capacity()
         res = [catalog.Resource(info, scratch, f"f{i}") for i in range(n)]
         extra = catalog.Resource(info, scratch, "unrelated")
@@ -154,7 +158,7 @@ def run_case(info, trigger, case):
                     return V("enter_raised", f"entering obj.buffered raised {type(e).__name__}: {e}")
                 ctxs.append(("obj", i, cm))
         else:
-            cm = cls.buffer_backend(10**9) if trigger == "backend_exit_cap" else cls.buffer_backend()
+            cm = cls.buffer_backend(10**9) if trigger.startswith("backend_exit_cap") else cls.buffer_backend()
             _, e = lib(cm.__enter__)
             if e:
                 return V("enter_raised", f"entering buffer_backend raised {type(e).__name__}: {e}")
